@@ -131,14 +131,21 @@ directive @transform(op: String!) repeatable on FIELD
                     schema = Some(s.node);
                 }
                 TypeSystemDefinition::Directive(d) => {
-                    directives
-                        .insert_or_error(Arc::from(d.node.name.node.to_string()), d.node)
-                        .unwrap();
+                    let directive_name: Arc<str> = Arc::from(d.node.name.node.to_string());
+                    if directives.insert_or_error(directive_name.clone(), d.node).is_err() {
+                        return Err(InvalidSchemaError::DuplicateDirectiveDefinition(
+                            directive_name.to_string(),
+                        ));
+                    }
                 }
                 TypeSystemDefinition::Type(t) => {
                     let node = t.node;
                     let type_name: Arc<str> = Arc::from(node.name.node.to_string());
-                    assert!(!get_builtin_scalars().contains(type_name.as_ref()));
+                    if get_builtin_scalars().contains(type_name.as_ref()) {
+                        return Err(InvalidSchemaError::BuiltinScalarRedefinition(
+                            type_name.to_string(),
+                        ));
+                    }
 
                     if node.extend {
                         unimplemented!("Trustfall does not support extending schemas");
@@ -146,7 +153,11 @@ directive @transform(op: String!) repeatable on FIELD
 
                     match &node.kind {
                         TypeKind::Scalar => {
-                            scalars.insert_or_error(type_name.clone(), node.clone()).unwrap();
+                            if scalars.insert_or_error(type_name.clone(), node.clone()).is_err() {
+                                return Err(InvalidSchemaError::DuplicateScalarDefinition(
+                                    type_name.to_string(),
+                                ));
+                            }
                         }
                         TypeKind::Object(_) | TypeKind::Interface(_) => {
                             match vertex_types.insert_or_error(type_name.clone(), node.clone()) {
